@@ -85,7 +85,7 @@ type sharingRepo struct {
 	tags   map[string]bool
 	// confused: resolves every reference to the stored artifact (a registry that answers a digest reference with another digest)
 	confused bool
-	pushed []c11Push
+	pushed   []c11Push
 }
 
 type c11Push struct {
